@@ -253,7 +253,7 @@ RESULTS = {
 }
 
 VERIFY = {}
-for f in glob.glob("/tmp/verify_batch*.log"):
+for f in sorted(glob.glob("/tmp/verify_batch*.log"), key=os.path.getmtime):
     for line in open(f):
         m = re.match(r"/tmp/mut(\d?)-(C\d\d)-out ([ABC]): build=(\d+) suite=(\d+) demo_without=(\d+) demo_with=(\d+)", line)
         if m:
